@@ -252,6 +252,16 @@ Table == {
   Occ(208, "file/exists", {4}, "file.move"), Occ(209, "file/exists", {31}, "alias.make"),
   Occ(207, "file.rename/exists", {3}, "file.rename"),
   One(112, "new/chat", {11}, "chat.open"),
+  (* news items at depth 2 and 3: a category / a bundle inside a bundle, and one level deeper; requests below them *)
+  One(380, "cat2", {35}, "news.cat.delete"), One(380, "bundle2", {37}, "news.bundle.delete"),
+  One(380, "cat3", {35}, "news.cat.delete"), One(380, "bundle3", {37}, "news.bundle.delete"),
+  R(380, "missing2", {}, {{35}, {37}}, << {} >>),
+  One(381, "bundle/deep", {36}, "news.bundle.create"), One(382, "cat/deep", {34}, "news.cat.create"),
+  R(370, "root/nested", {20}, {{}}, << {"news.read"} >>), R(370, "root/deep", {20}, {{}}, << {"news.read"} >>),
+  R(371, "cat/nested", {20}, {{}}, << {"news.read"} >>), R(371, "cat/deep", {20}, {{}}, << {"news.read"} >>),
+  One(400, "art/nested", {20}, "news.read"), One(400, "art/deep", {20}, "news.read"),
+  One(410, "post/nested", {21}, "news.post"), One(410, "post/deep", {21}, "news.post"),
+  One(411, "art/nested", {33}, "news.art.delete"), One(411, "art/deep", {33}, "news.art.delete"),
   (* account-administration requests that name the requester's own account: the same privilege governs them *)
   One(353, "set/self", {17}, "acct.modify"), One(351, "del/self", {15}, "acct.delete"),
   One(352, "get/self", {16}, "acct.read"),
